@@ -33,6 +33,7 @@ SIG_N1 = "GMRF._sample|N=1:neumann-periodic-broadcast"
 SIG_MHN_ACC = "ModifiedHalfNormal._MHN_sample_normal_proposal|acceptance-above-one"
 SIG_MHN_DIM = "ModifiedHalfNormal._sample|dim>1"
 SIG_UDD = "UserDefinedDistribution._sample|rng-ignored"
+SIG_TINY = "Gaussian._sample|sqrtprec:tiny-entries-judged-triangular"
 
 
 def quiet(f, *a, **k):
@@ -125,9 +126,26 @@ def read_affine(d, m, ncalls=1, mode="rng"):
     return off, T, calls
 
 
-def hessian_of_logd(d, n, center=None):
-    """-Hessian of the object's own log-density (exact second differences of a quadratic up to rounding)"""
+def hessian_of_logd(d, n, center=None, step=1.0):
+    """-Hessian of the object's own log-density (exact second differences of a quadratic up to rounding); `step` is a power of
+    two chosen so that the quadratic term is O(1) whatever the scale of the parameters"""
     c = np.zeros(n) if center is None else np.asarray(center, dtype=float)
+    if step != 1.0:
+        E = np.eye(n) * step
+        def f1(x):
+            try:
+                v = d.logd(x)
+                if not np.all(np.isfinite(np.ravel(v))) and hasattr(d, "_logupdf"):
+                    v = d._logupdf(x)
+            except NotImplementedError:
+                v = d._logupdf(x)
+            return float(np.ravel(v)[0])
+        f0 = f1(c); fi = [f1(c + E[i]) for i in range(n)]
+        H = np.zeros((n, n))
+        for i in range(n):
+            for j in range(i, n):
+                H[i, j] = H[j, i] = -(f1(c + E[i] + E[j]) - fi[i] - fi[j] + f0) / step ** 2
+        return H
     def f(x):
         try:
             v = d.logd(x)
@@ -158,7 +176,8 @@ def cov_defect(H, T, tol):
     R = H @ C @ H - H
     if not (np.all(np.isfinite(H)) and np.all(np.isfinite(R))):
         return float("inf"), tol          # a density that cannot be evaluated never passes silently
-    return float(np.abs(R).max() / max(1.0, np.abs(H).max())), tol
+    hmax = float(np.abs(H).max())
+    return float(np.abs(R).max() / (hmax if hmax > 0 else 1.0)), tol      # relative at every scale
 
 
 def split_verdict(c):
@@ -173,7 +192,7 @@ def split_verdict(c):
     return [c, v]
 
 
-FAITHFUL_CLASSES = (SIG_TRI, SIG_PER, SIG_N1)
+FAITHFUL_CLASSES = (SIG_TRI, SIG_PER, SIG_N1, SIG_TINY)
 
 
 # ------------------------------------------------------------------------------------------------
@@ -215,6 +234,11 @@ def rand_matrix(rng, n, shape):
             for i in range(n):
                 for j in range(i + 1, n):
                     M[i, j] = rng.choice([2.0 ** -30, -2.0 ** -31, 2.0 ** -28])
+        elif shape == "almost-lower":      # upper entries small but far above every tolerance: must take the general solve
+            M = rand_lower(rng, n)
+            for i in range(n):
+                for j in range(i + 1, n):
+                    M[i, j] = rng.choice([2.0 ** -12, -2.0 ** -18, 2.0 ** -22, 2.0 ** -7])
         elif shape == "full":
             M = rand_lower(rng, n) + np.triu(rand_lower(rng, n).T, 1)
         elif shape == "spd":
@@ -235,7 +259,7 @@ def gaussian_configs(ctx):
         for form in ("sqrtprec", "prec", "cov", "sqrtcov"):
             shapes = ["scalar", "vector", "diag"]
             if form in ("sqrtprec", "sqrtcov"):
-                shapes += ["lower", "upper", "full"] + (["nearly-lower"] if form == "sqrtprec" else [])
+                shapes += ["lower", "upper", "full"] + (["nearly-lower", "almost-lower"] if form == "sqrtprec" else [])
             else:
                 shapes += ["spd"]
             for shp in shapes:
@@ -392,17 +416,19 @@ def gaussian_case(ctx, meta, states=None):
     expected_calls = [("randn", (n, n + 1))] if meta["iface"] != "N1" else [("randn", (n, 1))]
     expr += " && %s" % cbool(calls == expected_calls)
     # independent oracle: covariance of the draws vs the Hessian of the same object's log-density; offset vs its mode
-    H = hessian_of_logd(d, n, center=np.zeros(n))
+    bm = np.repeat(mean, n) if len(mean) == 1 else mean
+    H = hessian_of_logd(d, n, center=np.zeros(n) if "hstep" not in meta else bm, step=float(meta.get("hstep", 1.0)))
     defect, tol = cov_defect(H, T, 1e-6)
     fail, sig = None, ""
-    bm = np.repeat(mean, n) if len(mean) == 1 else mean
+    full_lower_by_tolerance = (not sparse) and lower and bool(np.any(np.triu(S, 1)))
     if not np.allclose(off, bm, atol=1e-12):
         fail = "offset of the draws %s is not the mean %s" % (off, bm)
         sig = "Gaussian._sample|offset"
     elif defect > tol:
         fail = ("covariance of the draws T T^T is not the inverse of the precision implied by logd: |H C H - H|/|H| = %.3g "
                 "(form %s:%s dim %d, stored sqrtprec %s)" % (defect, meta["form"], meta["shape"], n, branch))
-        sig = SIG_TRI if (branch == "tri" and nondiag) else "Gaussian._sample|covariance:%s:%s" % (meta["form"], branch)
+        sig = SIG_TINY if full_lower_by_tolerance else SIG_TRI if (branch == "tri" and nondiag) \
+            else "Gaussian._sample|covariance:%s:%s" % (meta["form"], branch)
     if states is not None and branch == "tri" and nondiag:
         st = 1 if np.allclose(np.triu(S) @ T, np.eye(n), atol=1e-9) else 0
         st += 2 if np.allclose(np.tril(S) @ T, np.eye(n), atol=1e-9) else 0
@@ -473,6 +499,32 @@ def gaussian_format_cases(ctx, cases):
     for (form, struct, fmt) in big_cfgs:
         k += 1
         emit(form, struct, fmt, bigs[k % len(bigs)], ["rng", "N1"][k % 2])
+
+
+def gaussian_scale_cases(ctx, cases):
+    """the same matrices at dyadic scales 2^k (standard deviations from 1e-12 to 1e12): every test in the code that uses an
+    absolute tolerance sees them differently; comparisons here are relative (model: S_eff T = I; oracle: |HCH-H|/|H|)"""
+    rng = ctx.rng
+    states = {}
+    n = 3
+    k = 0
+    for form, shape in (("sqrtprec", "full"), ("sqrtprec", "upper"), ("sqrtprec", "lower"), ("cov", "spd"), ("prec", "spd"),
+                        ("sqrtcov", "full"), ("sqrtcov", "lower"), ("sqrtprec", "vector"), ("cov", "scalar")):
+        for e in ((-40, -27, 20) if not ctx.thorough else (-40, -30, -27, -20, -10, 10, 20, 40)):
+            k += 1
+            if shape == "scalar":
+                base = float(rng.choice([1, 4, 2]))
+            elif shape == "vector":
+                base = np.array([float(rng.choice([1, 4, 9, 2])) for _ in range(n)])
+            else:
+                base = int_matrix(rng, n, shape)
+            # scale of the stored sqrtprec is 2^e: cov scales with 4^-e, prec with 4^e, sqrtcov with 2^-e
+            f = {"sqrtprec": 2.0 ** e, "prec": 4.0 ** e, "cov": 4.0 ** (-e), "sqrtcov": 2.0 ** (-e)}[form]
+            val = (np.asarray(base) * f).tolist() if shape != "scalar" else base * f
+            meta = {"op": "gaussian", "form": form, "shape": shape, "sparse_input": False, "dim": n, "value": val,
+                    "mean": [dy(rng) for _ in range(n)], "mean_kind": "vector", "iface": ["rng", "global", "N1"][k % 3],
+                    "hstep": 2.0 ** (-e), "cellname": "%s:%s*2^%d" % (form, shape, e)}
+            cases.extend(split_verdict(gaussian_case(ctx, meta, states)))
 
 
 def int_matrix(rng, n, shape):
@@ -665,6 +717,10 @@ def gmrf_case(ctx, meta, n1_states=None):
         L = dense(d._chol)
         expr = "check_gmrf_%s %s %s %s %s" % (bc, common, cqm(L), cqv(off), cqm(T))
     expr += " && %s" % cbool(calls == exp_calls)
+    # the difference operator itself is computed by the model (stencil per boundary condition / order / 1-d or 2-d)
+    nodes = int(round(math.sqrt(n))) if meta.get("two_d") else n
+    bcq0 = {"zero": "Zero", "neumann": "Neumann", "periodic": "Periodic"}[bc]
+    expr += " && check_diffop %s %s %s %s %s" % (bcq0, cnat(meta["order"]), cbool(bool(meta.get("two_d"))), cnat(nodes), cqm(D))
     # oracle: the density's precision is the Hessian of the object's own logd; draws' covariance must be its generalised inverse
     H = hessian_of_logd(d, n, center=np.zeros(n))
     defect, tol = cov_defect(H, T, 1e-5)
@@ -813,10 +869,10 @@ def ref_logpdf(api_name, args, x):
     return dist, float(np.sum(dist.logpdf(x)))
 
 
-def wiring_case(ctx, meta):
+def wiring_case(ctx, meta, dist=None):
     import cuqi, importlib
     fam, N, n = meta["family"], meta["N"], meta["dim"]
-    d = build_univariate(meta)
+    d = build_univariate(meta) if dist is None else dist
     api, gname, argnames = FAMILY_GEN[fam]
     G = np.array(meta["G"], dtype=float)
     rs_ok = True
@@ -1090,10 +1146,45 @@ RNG_SPECS = WRAP_SPECS + [["GMRF", [0.0, 0.0, 0.0, 0.0], 2.0, "neumann", 1], ["G
 CLASS_OF = {"UserDefined": ["UserDefinedDistribution"], "Gallery": ["DistributionGallery", "Gaussian"], "Lognormal": ["Lognormal", "Gaussian"]}
 
 
+RNG_KINDS = ("RandomState", "Generator-PCG64", "Generator-MT19937", "duck-legacy", "duck-new")
+
+
+class DuckRng:
+    """an object that is not a numpy generator but offers some of the generator methods (forwarded to a private RandomState)"""
+    def __init__(self, seed, names):
+        self._rs = np.random.RandomState(seed)
+        self._names = set(names)
+        self.calls = 0
+
+    def __getattr__(self, name):
+        if name.startswith("_") or name not in self._names:
+            raise AttributeError(name)
+        f = getattr(self._rs, name)
+        def g(*a, **k):
+            self.calls += 1
+            return f(*a, **k)
+        return g
+
+
+def mk_rng(kind, seed):
+    if kind == "RandomState":
+        return np.random.RandomState(seed)
+    if kind == "Generator-PCG64":
+        return np.random.Generator(np.random.PCG64(seed))
+    if kind == "Generator-MT19937":
+        return np.random.Generator(np.random.MT19937(seed))
+    if kind == "duck-legacy":       # the legacy spelling only: randn, no standard_normal
+        return DuckRng(seed, ["randn", "normal", "gamma", "uniform", "laplace"])
+    if kind == "duck-new":          # the new spelling only: standard_normal, no randn
+        return DuckRng(seed, ["standard_normal", "normal", "gamma", "uniform", "laplace"])
+    raise ValueError(kind)
+
+
 def rng_cases(ctx, cases, sites):
     for spec in RNG_SPECS:
-        for N in (1, 3):
-            cases.append(rng_case(ctx, {"op": "rng", "spec": spec, "N": N}, sites))
+        for kind in RNG_KINDS:
+            for N in ((1, 3) if (kind == "RandomState" or ctx.thorough) else (3,)):
+                cases.append(rng_case(ctx, {"op": "rng", "spec": spec, "N": N, "kind": kind}, sites))
 
 
 def rng_case(ctx, meta, sites=None):
@@ -1106,42 +1197,62 @@ def rng_case(ctx, meta, sites=None):
                     signature="%s._sample|does-not-terminate" % meta["spec"][0])
 
 
+def same_global_state(a, b):
+    return a[0] == b[0] and np.array_equal(a[1], b[1]) and a[2:] == b[2:]
+
+
 def rng_case_(ctx, meta, sites=None):
+    """the three clauses of the property for one (distribution, kind of generator): the draws are a deterministic function of
+    the generator's state, they do depend on it, and the global numpy state is left alone.  A generator the method cannot
+    work with must be REFUSED (an exception, same under every global state) -- never silently replaced by the global one."""
     if sites is None:
         sites, _ = tr_rngflow.extract(ctx.repo)
-    spec, N = meta["spec"], meta["N"]
+    spec, N, kind = meta["spec"], meta["N"], meta.get("kind", "RandomState")
     classes = CLASS_OF.get(spec[0], [spec[0]])
     mine = [s for s in sites if s[0].split(".")[0] in classes]
     st_saved = np.random.get_state()
+    def draw(d, seed):
+        try:
+            w = quiet(d.sample, N, rng=mk_rng(kind, seed))
+            return np.asarray(w, dtype=float) if N == 1 else np.asarray(w.samples, dtype=float)
+        except (AttributeError, TypeError, ValueError) as e:
+            return "refused: %s" % type(e).__name__
+    same = lambda x, y: (isinstance(x, str) and isinstance(y, str) and x == y) or \
+        (not isinstance(x, str) and not isinstance(y, str) and x.shape == y.shape and bool(np.array_equal(x, y)))
     try:
         np.random.seed(123)
         d = build_named(spec)
         st0 = np.random.get_state()
-        a = np.asarray(quiet(d.sample, N, rng=np.random.RandomState(7)), dtype=float) if N == 1 else \
-            np.asarray(quiet(d.sample, N, rng=np.random.RandomState(7)).samples, dtype=float)
+        a = draw(d, 7)
         st1 = np.random.get_state()
-        untouched = st0[0] == st1[0] and np.array_equal(st0[1], st1[1]) and st0[2:] == st1[2:]
+        untouched = same_global_state(st0, st1)
         np.random.seed(456)        # same object, other global state (constructors may use the global state: eigsh in GMRF)
-        b = np.asarray(quiet(d.sample, N, rng=np.random.RandomState(7)), dtype=float) if N == 1 else \
-            np.asarray(quiet(d.sample, N, rng=np.random.RandomState(7)).samples, dtype=float)
-        deterministic = a.shape == b.shape and bool(np.array_equal(a, b))
+        b = draw(d, 7)
+        deterministic = same(a, b)
+        np.random.seed(123)        # same global state as for a, other generator state
+        c = draw(d, 8)
+        depends = isinstance(a, str) or isinstance(c, str) or not same(a, c)
         # and the global path does use the global state (so that "untouched" is not vacuous)
         np.random.seed(99)
         g0 = np.random.get_state()
         quiet(build_named(spec).sample, N)
         g1 = np.random.get_state()
-        global_used = not np.array_equal(g0[1], g1[1]) or g0[2] != g1[2]
+        global_used = not same_global_state(g0, g1)
     finally:
         np.random.set_state(st_saved)
+    refused = isinstance(a, str)
     expr = "implb (isolated %s) (%s && %s) && %s" % (tr_rngflow.coq_sites(mine), cbool(untouched), cbool(deterministic),
                                                   cbool(len(mine) > 0))
     fail, sig = None, ""
-    if not (untouched and deterministic):
-        fail = ("%s.sample(%d, rng=RandomState(7)): global numpy state %s, draws %s under a different global seed"
-                % (spec[0], N, "untouched" if untouched else "ADVANCED", "identical" if deterministic else "DIFFERENT"))
+    if not (untouched and deterministic and depends):
+        fail = ("%s.sample(%d, rng=<%s seeded 7>): global numpy state %s; draws %s under a different global seed; draws %s "
+                "under a differently seeded generator" % (spec[0], N, kind, "untouched" if untouched else "ADVANCED",
+                                                         "identical" if deterministic else "DIFFERENT",
+                                                         "different" if depends else "IDENTICAL (the generator is ignored)"))
         sig = SIG_UDD if spec[0] == "UserDefined" else "%s._sample|rng-isolation" % spec[0]
-    meta2 = dict(meta); meta2["global_path_uses_global_state"] = bool(global_used)
-    return Case(expr=expr, meta=meta2, cell="rng/%s" % spec[0], kind="DECISION", impl_fail=fail, signature=sig)
+    meta2 = dict(meta); meta2["global_path_uses_global_state"] = bool(global_used); meta2["refused"] = a if refused else None
+    return Case(expr=expr, meta=meta2, cell="rng/%s/%s%s" % (spec[0], kind, "/refused" if refused else ""), kind="DECISION",
+                impl_fail=fail, signature=sig)
 
 
 # ------------------------------------------------------------------------------------------------
@@ -1389,6 +1500,239 @@ def mhn_public_case(ctx, meta):
 
 
 # ------------------------------------------------------------------------------------------------
+# histories on ONE object: sample -> re-assign a settable parameter -> sample again
+# ------------------------------------------------------------------------------------------------
+def hist_value(rng, form_shape, n):
+    form, shp = form_shape
+    if shp == "scalar":
+        return rng.choice([1.0, 4.0, 0.25, 2.25, 2.0, 9.0])
+    if shp == "vector":
+        return [rng.choice([1.0, 4.0, 0.25, 2.25, 2.0, 9.0]) for _ in range(n)]
+    if shp in STRUCTURES:
+        return struct_matrix(rng, n, shp, spd=form in ("prec", "cov")).tolist()
+    return rand_matrix(rng, n, shp).tolist()
+
+
+def as_param(val, shp, fmt):
+    if shp == "scalar":
+        return float(val)
+    v = np.array(val, dtype=float)
+    if shp != "vector" and fmt:
+        v = to_sparse(v, fmt)
+    return v
+
+
+def gaussian_history_case(ctx, meta):
+    """one Gaussian object through a sequence of assignments; after every step the object is read off (affine map under
+    scripted normals), compared bit for bit with a FRESH object built from the current parameters, checked by the model
+    against the stored square root, and its covariance compared with the Hessian of its own logd.  Earlier read-offs are
+    kept and the object is re-read at the end after restoring the first parameters (stale caches show up there)."""
+    import cuqi, scipy.sparse as spa
+    n, form = meta["dim"], meta["form"]
+    steps = meta["steps"]            # list of {"attr": "mean"|form, "shape":…, "value":…, "fmt":…}
+    cur = {"mean": meta["mean"], form: (meta["shape"], meta["value"], meta.get("fmt"))}
+    def fresh():
+        shp, val, fmt = cur[form]
+        return quiet(cuqi.distribution.Gaussian, np.array(cur["mean"], dtype=float), **{form: as_param(val, shp, fmt)})
+    d = fresh()
+    exprs, fails = [], []
+    def observe(tag):
+        iface = meta["iface"]
+        off, T, _ = read_affine(d, n, 1, iface)
+        f = fresh()
+        off2, T2, _ = read_affine(f, n, 1, iface)
+        S = dense(d.sqrtprec)
+        sparse = bool(spa.issparse(d.sqrtprec))
+        same = bool(np.array_equal(off, off2) and np.array_equal(T, T2) and np.array_equal(S, dense(f.sqrtprec)))
+        mean = np.atleast_1d(np.asarray(d.mean, dtype=float))
+        exprs.append("check_gauss %s %s %s %s %s && %s" % (cbool(sparse), cqv(np.array(cur["mean"], dtype=float)), cqm(dense(f.sqrtprec)),
+                                                         cqv(off), cqm(T), cbool(same)))
+        H = hessian_of_logd(d, n, center=np.zeros(n))
+        Hf = hessian_of_logd(f, n, center=np.zeros(n))
+        defect, tol = cov_defect(H, T, 1e-6)
+        lower_nondiag = (not sparse) and np.allclose(S, np.tril(S)) and np.any(S != np.diag(np.diag(S)))
+        if not np.allclose(H, Hf, atol=1e-9 * max(1.0, np.abs(Hf).max())):
+            fails.append("%s: logd of the re-assigned object is not the logd of a fresh object with the same parameters" % tag)
+        elif not np.allclose(off, np.array(cur["mean"], dtype=float), atol=1e-12):
+            fails.append("%s: offset of the draws %s is not the current mean %s" % (tag, off, cur["mean"]))
+        elif defect > tol and not lower_nondiag:
+            fails.append("%s: covariance of the draws does not follow the object's own logd after the assignment (|HCH-H|/|H| = %.3g)" % (tag, defect))
+        elif not same:
+            fails.append("%s: draws of the re-assigned object differ from those of a fresh object with the same parameters" % tag)
+    observe("initial")
+    first = dict(cur)
+    for k, st in enumerate(steps + [{"restore": True}]):
+        if st.get("restore"):
+            for attr in ("mean", form):
+                val = first[attr]
+                cur[attr] = val
+                setattr(d, attr, np.array(val, dtype=float) if attr == "mean" else as_param(val[1], val[0], val[2]))
+            observe("after restoring the initial parameters")
+            continue
+        if st["attr"] == "mean":
+            cur["mean"] = st["value"]
+            d.mean = np.array(st["value"], dtype=float)
+        else:
+            cur[form] = (st["shape"], st["value"], st.get("fmt"))
+            setattr(d, form, as_param(st["value"], st["shape"], st.get("fmt")))
+        observe("after step %d (%s := %s)" % (k + 1, st["attr"], st.get("shape", "vector")))
+    fail = fails[0] if fails else None
+    return Case(expr=" && ".join(exprs), meta=meta, cell="history/Gaussian/%s" % form, kind="EXACT", impl_fail=fail,
+                signature="Gaussian|history:%s" % form if fail else "")
+
+
+def gmrf_history_case(ctx, meta):
+    n, bc, order = meta["dim"], meta["bc"], meta["order"]
+    m0 = dict(meta, op="gmrf", mean=meta["mean"], prec=meta["prec"], two_d=False)
+    d = build_gmrf(m0)
+    mrows = {"zero": n, "neumann": d._diff_op.shape[0], "periodic": n}[bc]
+    ncalls = 2 if bc == "periodic" else 1
+    exprs, fails = [], []
+    cur = {"mean": meta["mean"], "prec": meta["prec"]}
+    def observe(tag):
+        off, T, _ = read_affine(d, mrows, ncalls, "rng")
+        f = build_gmrf(dict(m0, mean=cur["mean"], prec=cur["prec"]))
+        off2, T2, _ = read_affine(f, mrows, ncalls, "rng")
+        same = bool(np.allclose(off, off2, atol=1e-12) and np.allclose(T, T2, rtol=1e-9, atol=1e-12))   # eigsh start vectors differ in the last bits
+        exprs.append(cbool(same))
+        H, Hf = hessian_of_logd(d, n, center=np.zeros(n)), hessian_of_logd(f, n, center=np.zeros(n))
+        defect, tol = cov_defect(H, T, 1e-5)
+        if not np.allclose(H, Hf, atol=1e-9 * max(1.0, np.abs(Hf).max())):
+            fails.append("%s: logd differs from a fresh object's" % tag)
+        elif not np.allclose(off, np.array(cur["mean"], dtype=float), atol=1e-12):
+            fails.append("%s: offset of the draws is not the current mean" % tag)
+        elif defect > tol and not (bc == "periodic" and order >= 1):
+            fails.append("%s: covariance of the draws does not follow the object's own logd (|HCH-H|/|H| = %.3g)" % (tag, defect))
+        elif not same:
+            fails.append("%s: draws differ from those of a fresh object with the same parameters" % tag)
+    observe("initial")
+    for k, st in enumerate(meta["steps"]):
+        cur[st["attr"]] = st["value"]
+        setattr(d, st["attr"], np.array(st["value"], dtype=float) if st["attr"] == "mean" else st["value"])
+        observe("after step %d (%s)" % (k + 1, st["attr"]))
+    fail = fails[0] if fails else None
+    return Case(expr=" && ".join(exprs), meta=meta, cell="history/GMRF/%s" % bc, kind="DECISION", impl_fail=fail,
+                signature="GMRF|history" if fail else "")
+
+
+UNI_ATTRS = {"Normal": ("mean", "std"), "Laplace": ("location", "scale"), "Uniform": ("low", "high"), "Gamma": ("shape", "rate"),
+             "InverseGamma": ("shape", "location", "scale"), "Beta": ("alpha", "beta"), "Cauchy": ("location", "scale")}
+
+
+def univariate_history_case(ctx, meta):
+    """sample -> assign one parameter -> sample: the generator call after the assignment is the one the model predicts for the
+    NEW parameters and the density of the generator as called is the object's own logpdf"""
+    fam, n, N = meta["family"], meta["dim"], meta["N"]
+    d = build_univariate(meta)
+    ps = [p for p in meta["params"]]
+    cases = [wiring_case(ctx, dict(meta, op="wiring"), dist=d)]
+    for st in meta["steps"]:
+        k = UNI_ATTRS[fam].index(st["attr"])
+        ps = list(ps); ps[k] = st["value"]
+        v = np.array(st["value"], dtype=float) if isinstance(st["value"], list) else float(st["value"])
+        setattr(d, st["attr"], v)
+        cases.append(wiring_case(ctx, dict(meta, op="wiring", params=ps), dist=d))
+    fail = next((c.impl_fail for c in cases if c.impl_fail), None)
+    if fail:
+        fail = "after re-assigning %s on the same object: %s" % ([s["attr"] for s in meta["steps"]], fail)
+    return Case(expr=" && ".join("(%s)" % c.expr for c in cases), meta=meta, cell="history/%s" % fam, kind="EXACT", impl_fail=fail,
+                signature="%s|history" % fam if fail else "")
+
+
+def lognormal_history_case(ctx, meta):
+    import cuqi
+    n = meta["dim"]
+    d = quiet(cuqi.distribution.Lognormal, np.array(meta["mean"], dtype=float), as_param(meta["cov"][1], meta["cov"][0], None))
+    cur = {"mean": meta["mean"], "cov": meta["cov"]}
+    exprs, fails = [], []
+    z = np.array(meta["z"], dtype=float)
+    def observe(tag):
+        g = quiet(cuqi.distribution.Gaussian, np.array(cur["mean"], dtype=float), cov=as_param(cur["cov"][1], cur["cov"][0], None))
+        off, T, _ = read_affine(g, n, 1, "rng")
+        scr = NormalScript([z.reshape(n, 1)])
+        s = np.asarray(quiet(d._sample, 1, scr), dtype=float).ravel()
+        exprs.append("check_lognormal %s %s %s %s" % (cqv(off), cqm(T), cqv(z), cqv(np.log(s))))
+        ref = float(np.ravel(g.logpdf(np.log(s)))[0]) - float(np.sum(np.log(s)))
+        got = float(np.ravel(d.logpdf(s))[0])
+        if abs(ref - got) > 1e-8 * (1 + abs(ref)):
+            fails.append("%s: Lognormal.logpdf(draw) = %r but the Gaussian(mean, cov) density of ln(draw) with Jacobian gives %r" % (tag, got, ref))
+        elif not np.allclose(np.log(s), off + T @ z, atol=1e-9):
+            fails.append("%s: the draw is not exp of the Gaussian(current mean, current cov) draw" % tag)
+    observe("initial")
+    for k, st in enumerate(meta["steps"]):
+        cur[st["attr"]] = st["value"]
+        setattr(d, st["attr"], np.array(st["value"], dtype=float) if st["attr"] == "mean" else as_param(st["value"][1], st["value"][0], None))
+        observe("after step %d (%s)" % (k + 1, st["attr"]))
+    fail = fails[0] if fails else None
+    return Case(expr=" && ".join(exprs), meta=meta, cell="history/Lognormal", kind="EXACT", impl_fail=fail,
+                signature="Lognormal|history" if fail else "")
+
+
+def history_cases(ctx, cases):
+    rng = ctx.rng
+    k = 0
+    n = 3
+    combos = [("sqrtprec", "upper", None), ("sqrtprec", "full", None), ("sqrtprec", "tridiag", "csr"), ("sqrtprec", "upper-bidiag", "dia"),
+              ("sqrtprec", "vector", None), ("sqrtprec", "scalar", None),
+              ("cov", "spd", None), ("cov", "tridiag", "csc"), ("cov", "vector", None), ("cov", "scalar", None),
+              ("prec", "spd", None), ("prec", "tridiag", "csr"), ("prec", "vector", None), ("prec", "scalar", None),
+              ("sqrtcov", "upper", None), ("sqrtcov", "full", None), ("sqrtcov", "lower-bidiag", "coo"), ("sqrtcov", "vector", None)]
+    for form in ("sqrtprec", "cov", "prec", "sqrtcov"):
+        mine = [c for c in combos if c[0] == form]
+        for a in mine:
+            for b in (mine if ctx.thorough else [mine[(mine.index(a) + 1) % len(mine)], mine[(mine.index(a) + 3) % len(mine)]]):
+                k += 1
+                steps = []
+                if k % 3 == 0:
+                    steps.append({"attr": "mean", "value": [dy(rng) for _ in range(n)]})
+                steps.append({"attr": form, "shape": b[1], "fmt": b[2], "value": hist_value(rng, (form, b[1]), n)})
+                if k % 3 == 1:
+                    steps.append({"attr": "mean", "value": [dy(rng) for _ in range(n)]})
+                if k % 2 == 0:       # same shape class again, other numbers (a cache keyed on the kind of input would survive)
+                    steps.append({"attr": form, "shape": b[1], "fmt": b[2], "value": hist_value(rng, (form, b[1]), n)})
+                meta = {"op": "hist_gauss", "form": form, "dim": n, "shape": a[1], "fmt": a[2], "value": hist_value(rng, (form, a[1]), n),
+                        "mean": [dy(rng) for _ in range(n)], "steps": steps, "iface": ["rng", "global", "N1"][k % 3]}
+                cases.append(gaussian_history_case(ctx, meta))
+    for bc in ("zero", "neumann", "periodic"):
+        for order in (0, 1, 2):
+            k += 1
+            nn = 5
+            meta = {"op": "hist_gmrf", "bc": bc, "order": order, "dim": nn, "mean": [dy(rng) for _ in range(nn)], "prec": rng.choice([1.0, 4.0, 2.0]),
+                    "steps": [{"attr": "prec", "value": rng.choice([0.25, 9.0, 3.0])}, {"attr": "mean", "value": [dy(rng) for _ in range(nn)]},
+                              {"attr": "prec", "value": rng.choice([16.0, 0.5])}]}
+            cases.append(gmrf_history_case(ctx, meta))
+    for fam in FAMILY_GEN:
+        for form in ("scalar", "vector"):
+            for rep in range(ctx.n(1, 3)):
+                k += 1
+                nn = 1 if form == "scalar" else 3
+                ps = rand_params(rng, fam, form, nn)
+                ps2 = rand_params(rng, fam, form, nn)
+                attrs = UNI_ATTRS[fam]
+                steps = [{"attr": attrs[i], "value": ps2[i]} for i in ([k % len(attrs)] if rep == 0 else range(len(attrs)))]
+                if fam == "Uniform":      # keep low < high along the way: assign high first when it grows
+                    steps = [{"attr": "high", "value": ps2[1]}, {"attr": "low", "value": ps2[0]}] if (np.max(ps2[1]) > np.max(ps[1])) else \
+                            [{"attr": "low", "value": ps2[0]}, {"attr": "high", "value": ps2[1]}]
+                    if np.min(np.asarray(ps[1]) - np.asarray(ps2[0])) <= 0 or np.min(np.asarray(ps2[1]) - np.asarray(ps[0])) <= 0:
+                        steps = [{"attr": "high", "value": (np.asarray(ps[1]) + 8).tolist() if isinstance(ps[1], list) else ps[1] + 8}]
+                N = [1, 2, 5][k % 3]
+                meta = {"op": "hist_uni", "family": fam, "form": form, "dim": nn, "N": N, "params": ps, "steps": steps,
+                        "G": [[rng.randint(1, 63) / 64 for _ in range(nn)] for _ in range(N)], "iface": ["rng", "global"][k % 2],
+                        "xseed": rng.randint(0, 10 ** 6)}
+                cases.append(univariate_history_case(ctx, meta))
+    for rep in range(ctx.n(4, 12)):
+        nn = 2
+        shapes = ["scalar", "vector", "spd"]
+        meta = {"op": "hist_lognormal", "dim": nn, "mean": [dy(rng, -2, 2) for _ in range(nn)],
+                "cov": (shapes[rep % 3], hist_value(rng, ("cov", shapes[rep % 3]), nn)),
+                "z": [dy(rng, -2, 2) for _ in range(nn)],
+                "steps": [{"attr": "cov", "value": (shapes[(rep + 1) % 3], hist_value(rng, ("cov", shapes[(rep + 1) % 3]), nn))},
+                          {"attr": "mean", "value": [dy(rng, -2, 2) for _ in range(nn)]},
+                          {"attr": "cov", "value": (shapes[(rep + 2) % 3], hist_value(rng, ("cov", shapes[(rep + 2) % 3]), nn))}]}
+        cases.append(lognormal_history_case(ctx, meta))
+
+
+# ------------------------------------------------------------------------------------------------
 # translator stage: coq/gen/Gen_C05.v, re-proved on every run
 # ------------------------------------------------------------------------------------------------
 def translator_stage(ctx):
@@ -1437,13 +1781,14 @@ def run(ctx):
         gaussian_cases(ctx, cases)
         gaussian_format_cases(ctx, cases)
         gaussian_variant_cases(ctx, cases)
+        gaussian_scale_cases(ctx, cases)
         lognormal_cases(ctx, cases)
         gmrf_cases(ctx, cases)
         univariate_cases(ctx, cases)
         wrapper_cases(ctx, cases)
         conditional_cases(ctx, cases)
-        if sites:
-            rng_cases(ctx, cases, sites)
+        history_cases(ctx, cases)
+        rng_cases(ctx, cases, sites)      # also when the translator failed (no sites): the behavioural clauses still find failing inputs
         mhn_cases(ctx, cases)
     finally:
         np.random.set_state(st_saved)
@@ -1488,6 +1833,8 @@ def classify(meta, detail):
         return SIG_UDD if meta.get("spec", [""])[0] == "UserDefined" else "%s._sample|rng-isolation" % meta.get("spec", ["?"])[0]
     if op == "lognormal":
         return "Lognormal._sample"
+    if op and op.startswith("hist_"):
+        return "%s|history" % {"hist_gauss": "Gaussian", "hist_gmrf": "GMRF", "hist_uni": str(meta.get("family")), "hist_lognormal": "Lognormal"}[op]
     if op in ("mhn", "mhn_public"):
         return "ModifiedHalfNormal._MHN_sample|scheme"
     return "C05"
@@ -1498,7 +1845,9 @@ REBUILD = {"gaussian": lambda ctx, m: [gaussian_case(ctx, m)], "lognormal": lamb
            "gmrf_refuse": lambda ctx, m: [gmrf_refuse_case(ctx, m)], "wiring": lambda ctx, m: [wiring_case(ctx, m)],
            "wrap": lambda ctx, m: [wrapper_case(ctx, m)], "wrap_defect": lambda ctx, m: [wrapper_defect_case(ctx, m)],
            "cond": lambda ctx, m: [conditional_case(ctx, m)], "rng": lambda ctx, m: [rng_case(ctx, m)],
-           "mhn": lambda ctx, m: [mhn_case(ctx, m)], "mhn_public": lambda ctx, m: [mhn_public_case(ctx, m)]}
+           "mhn": lambda ctx, m: [mhn_case(ctx, m)], "mhn_public": lambda ctx, m: [mhn_public_case(ctx, m)],
+           "hist_gauss": lambda ctx, m: [gaussian_history_case(ctx, m)], "hist_gmrf": lambda ctx, m: [gmrf_history_case(ctx, m)],
+           "hist_uni": lambda ctx, m: [univariate_history_case(ctx, m)], "hist_lognormal": lambda ctx, m: [lognormal_history_case(ctx, m)]}
 
 
 def oracle(ctx, meta):
@@ -1527,6 +1876,9 @@ def oracle(ctx, meta):
 WITNESSES = {
     SIG_TRI: {"op": "gaussian", "form": "sqrtprec", "shape": "lower", "sparse_input": False, "dim": 3,
               "value": [[1.0, 0.0, 0.0], [2.0, 1.0, 0.0], [0.0, -1.0, 2.0]], "mean": [1.0, 2.0, 3.0], "mean_kind": "vector", "iface": "rng"},
+    SIG_TINY: {"op": "gaussian", "form": "sqrtprec", "shape": "full", "sparse_input": False, "dim": 3,
+               "value": (np.array([[2.0, 1.0, 0.0], [0.5, 1.0, 1.0], [1.0, 0.0, 2.0]]) * 2.0 ** -30).tolist(), "mean": [0.0, 0.0, 0.0],
+               "mean_kind": "vector", "iface": "rng", "hstep": 2.0 ** 30, "cellname": "sqrtprec:full*2^-30"},
     SIG_PER: {"op": "gmrf", "bc": "periodic", "order": 1, "dim": 5, "two_d": False, "prec": 4.0, "mean": [0.0, 1.0, 2.0, 3.0, 4.0],
               "iface": "rng", "z": [0.5] * 30},
     SIG_N1: {"op": "gmrf_n1", "bc": "neumann", "order": 1, "dim": 4, "two_d": False, "prec": 4.0, "mean": [0.0, 1.0, 2.0, 3.0],
